@@ -184,6 +184,8 @@ class RunLab(object):
                 state.events.append(("hook",) + rec)
                 state.in_user_code += 1
                 try:
+                    if name == "before_scenario":
+                        state.ran_objects[(elem.name, elem.line)] = elem
                     if state.user_skip and name in ("before_feature", "before_rule") and getattr(elem, "name", None) in state.user_skip:
                         elem.skip(reason="skipped by environment.py")
                     for plug in state.hook_plugins:
@@ -228,6 +230,8 @@ class RunLab(object):
         st.messages = messages or {}
         st.calls, st.hooks, st.events = [], [], []
         st.seen_error_classes = set()
+        st.ran_objects = {}
+        st.replaced_after_run = []
         st.hook_count = 0
         st.hook_fault = hook_fault
         st.faults_fired = []
@@ -319,7 +323,13 @@ class RunLab(object):
             except Exception as ex:
                 return "EXCEPTION %s" % type(ex).__name__
 
+        st.replaced_after_run = []
+
         def scen(s):
+            ran = st.ran_objects.get((s.name, s.line))
+            if ran is not None and ran is not s:
+                # the scenario object found in the model after the run is not the object that was executed (rows rebuilt?)
+                st.replaced_after_run.append((s.name, s.line))
             st.elem_status[s.name] = sname(s)
             st.elem_kind[s.name] = "scenario"
             steps = list(s.all_steps)
